@@ -87,15 +87,25 @@ def interRun (eps tolSq : α) : α → List (StepIn α) → Nat → Exit × Nat
     | (.unknown, prev') => interRun eps tolSq prev' ss (n + 1)
     | (e, _) => (e, n + 1)
 
-/-- mesh hill climbing over an abstract graph: `proj i` is the projection of vertex `i` on the
-search direction, `nbrs i` its neighbours; move to the first neighbour that improves by more
-than `thr` (as `mesh.py` does), stop when none does. Returns the final vertex and the number
-of moves; `none` = out of fuel. -/
+/-- mesh hill climbing over an abstract graph (code after repair e900ae9): `proj i` is the ONE
+computed projection of vertex `i` on the search direction, `nbrs i` its neighbours; move to the
+first neighbour `j` with `proj j - proj i > thr` (the test of `mesh.py`), stop when none passes.
+Returns the final vertex and the number of moves; `none` = out of fuel. -/
 def hillClimb (proj : Nat → α) (nbrs : Nat → List Nat) (thr : α) : Nat → Nat → Nat → Option (Nat × Nat)
   | 0, _, _ => none
   | fuel + 1, i, moves =>
-    match (nbrs i).find? (fun j => decide (proj i + thr < proj j)) with
+    match (nbrs i).find? (fun j => decide (thr < proj j - proj i)) with
     | some j => hillClimb proj nbrs thr fuel j (moves + 1)
+    | none => some (i, moves)
+
+/-- the climb before the repair: the improvement is a separately computed quantity `gain i j`
+(`fl(d · fl(v_j − v_i))` in the code) that need not be a difference of per-vertex values -/
+def hillClimb_asIs_before_fix (gain : Nat → Nat → α) (nbrs : Nat → List Nat) (thr : α) :
+    Nat → Nat → Nat → Option (Nat × Nat)
+  | 0, _, _ => none
+  | fuel + 1, i, moves =>
+    match (nbrs i).find? (fun j => decide (thr < gain i j)) with
+    | some j => hillClimb_asIs_before_fix gain nbrs thr fuel j (moves + 1)
     | none => some (i, moves)
 
 end Term
